@@ -1,7 +1,10 @@
 //! Deterministic simulation harness for dswd/vpncloud (compiled as a child module of the real crate root).
 #![allow(clippy::all)]
 
+pub mod c03;
+pub mod c04;
 pub mod c05;
+pub mod c07;
 pub mod c08;
 pub mod c10;
 pub mod c11;
@@ -13,7 +16,9 @@ pub mod c15;
 pub mod chooser;
 pub mod io;
 pub mod json;
+pub mod l1;
 pub mod mesh;
+pub mod pair;
 pub mod refmodel;
 pub mod rng;
 pub mod runner;
@@ -24,7 +29,10 @@ use runner::{Scenario, Tier};
 
 pub fn scenario_for(pid: &str) -> Option<&'static dyn Scenario> {
     Some(match pid {
+        "C03" => &c03::C03,
+        "C04" => &c04::C04,
         "C05" => &c05::C05,
+        "C07" => &c07::C07,
         "C08" => &c08::C08,
         "C10" => &c10::C10,
         "C11" => &c11::C11,
